@@ -1,39 +1,105 @@
 import CollectionsC.Properties.C03
-import CollectionsC.Proofs.TreeTableMem
 /-! # C07 (tree table / tree set part): iterators
 
 The C iterator holds two node pointers (`current`, `next`, the latter computed before the entry is
 handed out); `iter_remove` unlinks `current` with CLRS's deletion, which *moves* the successor node
 instead of freeing it, so `next` stays valid.  The ideal cursor `(last, todo)` is
 `Spec.OrdMap.Cursor`.  Quantifiers: every total-order comparator, every table satisfying the invariant
-(any fill level), every program of `next` / `remove` calls. -/
+(any fill level), every program of `next` / `remove` calls.
+
+**Model boundary (`_model` names).**  In the model a node pointer is the *key* of the node, the tree is
+a value, `get_successor_node` is "the next entry of the in-order list" and `remove_node` is the
+functional deletion.  In such a model a pointer cannot dangle: a deletion that copied the successor's
+key/value into `z` and freed the successor *node* (the textbook variant that would break the C
+iterator) satisfies every theorem below just as well.  What the theorems do establish is the logic of
+the cursor — which key is handed out next, that removal affects exactly the entry yielded last, that
+order, red-black rules and sizes survive.  That the pre-computed `next` *pointer* survives
+`remove_node` in the C code is established by the correspondence harness: ASan on the real heap, the
+iterator's pointers printed as keys and compared with the model after every call, and a walker that
+reports an iterator pointer not reachable from the root.
+
+Contract exclusion: `iter_remove` before the first successful `iter_next` (`current` = sentinel) is
+outside the documented contract (the C code would unlink the sentinel).  The model answers
+`CC_ERR_KEY_NOT_FOUND` and sets the fault flag; programs that respect the contract are `IterValid`, and
+for them the fault flag stays clear. -/
 namespace CC.Properties.C07Tree
 open CC CC.Spec CC.Spec.OrdMap
 variable {cmp : Nat → Nat → Int}
 
+/-- a program of `next` calls only is inside the contract -/
+theorem nexts_valid (n : Nat) (t : TreeTable) (it : TreeIter) (m : Mem) :
+    TreeTable.IterValid cmp t it (List.replicate n .next) m := by
+  induction n generalizing t it m with
+  | zero => trivial
+  | succ n ih => exact ⟨fun x => by simp at x, ih _ _ _⟩
+
 /-- **traversal_complete**: a fresh iterator and `n + 1` calls of `next` on a table of `n` entries
 yield exactly the entries (key in `val`, value in `log`), once each, in ascending key order, then
-`CC_ITER_END`; nothing is modified -/
-theorem traversal_complete (ho : TotalOrder cmp) (t : TreeTable) (h : t.Inv cmp) (m : Mem)
-    (hm : t.size + 2 ≤ m.live) :
+`CC_ITER_END`; nothing is modified, nothing faults -/
+theorem traversal_complete_model (ho : TotalOrder cmp) (t : TreeTable) (h : t.Inv cmp) (m : Mem)
+    (hm : TreeTable.Owns t m) :
     (t.iterRun cmp t.iterInit (List.replicate (t.size + 1) .next) m).1 =
       t.abs.map (fun e => { st := some .ok, val := some e.1, log := [e.2] }) ++ [{ st := some .iterEnd }] ∧
-    (keys t.abs).Pairwise (fun a b => cmp a b < 0) ∧ (keys t.abs).Nodup := by
-  have a := (C03.iter_refines ho t h (List.replicate (t.size + 1) .next) m hm).1
+    (keys t.abs).Pairwise (fun a b => cmp a b < 0) ∧ (keys t.abs).Nodup ∧
+    (t.iterRun cmp t.iterInit (List.replicate (t.size + 1) .next) m).2.1.abs = t.abs ∧
+    (t.iterRun cmp t.iterInit (List.replicate (t.size + 1) .next) m).2.2.2.fault = m.fault := by
+  have k := C03.iter_refines_model ho t h (List.replicate (t.size + 1) .next) m hm
+  have a := k.1
+  have hv := nexts_valid (cmp := cmp) (t.size + 1) t t.iterInit m
+  have hc : ∀ (n : Nat) (c : Cursor) (f : OrdMap), (c.run f (List.replicate n .next)).2.2 = f := by
+    intro n; induction n with
+    | zero => intro c f; rfl
+    | succ n ih => intro c f; simp only [List.replicate_succ, Cursor.run, Cursor.step]; exact ih _ _
+  refine ⟨?_, keys_ascending h.sorted, TreeTable.keys_nodup ho h.sorted, by rw [k.2.1, hc], k.2.2.2.1 hv⟩
   rw [h.size_eq] at a ⊢
   rw [a, C03.cursor_enumerates ho t.abs h.sorted]
-  exact ⟨rfl, keys_ascending h.sorted, TreeTable.keys_nodup ho h.sorted⟩
 
 /-- **program_refines**: any program of `next` / `remove` calls on a fresh iterator produces the
 statuses, keys and values of the ideal cursor and the ideal final content; the invariant (search-tree
-order, red-black rules, size) holds afterwards — the pre-computed successor survived every deletion -/
-theorem program_refines (ho : TotalOrder cmp) (t : TreeTable) (h : t.Inv cmp) (prog : List IterOp) (m : Mem)
-    (hm : t.size + 2 ≤ m.live) :
+order, red-black rules, size) and ledger consistency hold afterwards; and for programs inside the
+contract (`IterValid`: no `remove` before the first `next`) nothing faults -/
+theorem program_refines_model (ho : TotalOrder cmp) (t : TreeTable) (h : t.Inv cmp) (prog : List IterOp) (m : Mem)
+    (hm : TreeTable.Owns t m) :
     (t.iterRun cmp t.iterInit prog m).1 = ((Cursor.init t.abs).run t.abs prog).1 ∧
     (t.iterRun cmp t.iterInit prog m).2.1.abs = ((Cursor.init t.abs).run t.abs prog).2.2 ∧
-    (t.iterRun cmp t.iterInit prog m).2.1.Inv cmp := by
-  have := C03.iter_refines ho t h prog m hm
-  exact ⟨this.1, this.2.1, this.2.2.1⟩
+    (t.iterRun cmp t.iterInit prog m).2.1.Inv cmp ∧
+    (TreeTable.IterValid cmp t t.iterInit prog m → (t.iterRun cmp t.iterInit prog m).2.2.2.fault = m.fault) ∧
+    TreeTable.liveOf (t.iterRun cmp t.iterInit prog m).2.2.2 t.triple + t.size =
+      TreeTable.liveOf m t.triple + (t.iterRun cmp t.iterInit prog m).2.1.size ∧
+    TreeTable.Owns (t.iterRun cmp t.iterInit prog m).2.1 (t.iterRun cmp t.iterInit prog m).2.2.2 :=
+  C03.iter_refines_model ho t h prog m hm
+
+/-- a program whose first call is a `next` on a non-empty table is inside the contract whatever follows:
+`current` never returns to the sentinel -/
+theorem valid_after_first_next (ho : TotalOrder cmp) (t : TreeTable) (h : t.Inv cmp) (rest : List IterOp) (m : Mem)
+    (hne : t.abs ≠ []) : TreeTable.IterValid cmp t t.iterInit (.next :: rest) m := by
+  refine ⟨fun x => by simp at x, ?_⟩
+  have hcur : (t.iterStep cmp t.iterInit .next m).2.2.1.cur ≠ .sentinel := by
+    simp only [TreeTable.iterStep, TreeTable.iterNext, TreeTable.iterInit, Tree.minEntry_eq]
+    cases hl : t.root.toList with
+    | nil => exact absurd hl hne
+    | cons e l => simp
+  generalize (t.iterStep cmp t.iterInit .next m).2.1 = t' at hcur ⊢
+  generalize (t.iterStep cmp t.iterInit .next m).2.2.1 = it at hcur ⊢
+  generalize (t.iterStep cmp t.iterInit .next m).2.2.2 = m' at hcur ⊢
+  clear h hne
+  induction rest generalizing t' it m' with
+  | nil => trivial
+  | cons op rest ih =>
+    refine ⟨fun _ => hcur, ?_⟩
+    apply ih
+    cases op with
+    | next =>
+      simp only [TreeTable.iterStep, TreeTable.iterNext]
+      cases it.next with
+      | none => exact hcur
+      | some k => simp
+    | remove =>
+      simp only [TreeTable.iterStep, TreeTable.iterRemove]
+      cases hc : it.cur with
+      | sentinel => exact absurd hc hcur
+      | null => simp [hc]
+      | «at» k => simp
 
 /-- what the ideal cursor does: `remove` erases exactly the entry yielded last (once), and the keys
 still to be visited are untouched — the traversal continues over precisely the not-yet-visited
@@ -71,32 +137,50 @@ theorem cursor_todo (prog : List IterOp) (c : Cursor) (m : OrdMap) :
 /-! ## tree set -/
 
 /-- set iterator programs: statuses and yielded elements are those of the ideal cursor over the
-elements; final content ideal; invariant preserved -/
-theorem set_program_refines (ho : TotalOrder cmp) (s : TreeSet) (h : s.Inv cmp) (prog : List IterOp) (m : Mem)
-    (hm : s.t.size + 2 ≤ m.live) :
+elements (a successful `remove` hands back the dummy the table stored, which is what the cursor over
+the map-to-dummy returns); final content ideal; invariant preserved; no fault inside the contract -/
+theorem set_program_refines_model (ho : TotalOrder cmp) (s : TreeSet) (h : s.Inv cmp) (prog : List IterOp) (m : Mem)
+    (hm : TreeTable.Owns s.t m) :
     (s.iterRun cmp s.iterInit prog m).1 =
       ((Cursor.init s.t.abs).run s.t.abs prog).1.map (fun o => { st := o.st, val := o.val }) ∧
     (s.iterRun cmp s.iterInit prog m).2.1.t.abs = ((Cursor.init s.t.abs).run s.t.abs prog).2.2 ∧
-    (s.iterRun cmp s.iterInit prog m).2.1.t.Inv cmp := by
-  have k := program_refines ho s.t h.1 prog m hm
+    (s.iterRun cmp s.iterInit prog m).2.1.t.Inv cmp ∧
+    (TreeTable.IterValid cmp s.t s.iterInit prog m → (s.iterRun cmp s.iterInit prog m).2.2.2.fault = m.fault) := by
+  have k := program_refines_model ho s.t h.1 prog m hm
   have e := TreeSet.iterRun_eq_table (cmp := cmp) prog s s.iterInit m
-  rw [e.1, e.2.1]
+  rw [e.1, e.2.1, e.2.2.2]
   have hi : s.iterInit = s.t.iterInit := rfl
   rw [hi]
-  exact ⟨by rw [k.1], k.2.1, k.2.2⟩
+  exact ⟨by rw [k.1], k.2.1, k.2.2.1, k.2.2.2.1⟩
 
 /-- **traversal_complete** for the set: every element once, ascending, then `CC_ITER_END` -/
-theorem set_traversal_complete (ho : TotalOrder cmp) (s : TreeSet) (h : s.Inv cmp) (m : Mem)
-    (hm : s.t.size + 2 ≤ m.live) :
+theorem set_traversal_complete_model (ho : TotalOrder cmp) (s : TreeSet) (h : s.Inv cmp) (m : Mem)
+    (hm : TreeTable.Owns s.t m) :
     (s.iterRun cmp s.iterInit (List.replicate (s.t.size + 1) .next) m).1 =
       s.abs.map (fun e => { st := some .ok, val := some e }) ++ [{ st := some .iterEnd }] ∧
     s.abs.Pairwise (fun a b => cmp a b < 0) ∧ s.abs.Nodup := by
-  have k := traversal_complete ho s.t h.1 m hm
+  have k := traversal_complete_model ho s.t h.1 m hm
   have e := TreeSet.iterRun_eq_table (cmp := cmp) (List.replicate (s.t.size + 1) .next) s s.iterInit m
-  refine ⟨?_, k.2.1, k.2.2⟩
+  refine ⟨?_, k.2.1, k.2.2.1⟩
   rw [e.1]
   show List.map _ (s.t.iterRun cmp s.t.iterInit _ m).1 = _
   rw [k.1]
   simp [TreeSet.abs, TreeTable.abs, List.map_map]
+
+/-! ## Non-vacuity -/
+open CC.Driver.TreeTableD (cmpOf) in
+/-- the program of `corpus/treetable/iter_remove_two_children.ops`: remove the root (two children)
+through the iterator, the traversal continues with its successor -/
+example :
+    let t : TreeTable := TreeTable.mk
+      (Tree.node .black (Tree.node .black (Tree.node .red .nil 1 10 .nil) 2 20 (Tree.node .red .nil 3 30 .nil)) 4 40
+        (Tree.node .black (Tree.node .red .nil 5 50 .nil) 6 60 (Tree.node .red .nil 7 70 .nil))) 7 .conf
+    decide (t.Inv (cmpOf 0)) = true ∧
+    ((t.iterRun (cmpOf 0) t.iterInit [.next, .next, .next, .next, .remove, .remove, .next] { live := 9 }).1.map
+        (fun o => (o.st, o.val))) =
+      [(some .ok, some 1), (some .ok, some 2), (some .ok, some 3), (some .ok, some 4), (some .ok, some 40),
+       (some .errKeyNotFound, none), (some .ok, some 5)] ∧
+    decide ((t.iterRun (cmpOf 0) t.iterInit [.next, .next, .next, .next, .remove, .remove, .next] { live := 9 }).2.1.Inv
+      (cmpOf 0)) = true := by decide
 
 end CC.Properties.C07Tree
